@@ -74,8 +74,15 @@ type Opts struct {
 	NilWrite bool // read-only the way `serve http` builds it: writeOps=nil, getFileBuffer=nil
 	Stranger bool // use the stranger's private halves for reading (C08/C09)
 	NoInit   bool // do not call Initialize
-	Probe    *Probe
-	OnHeader func(*config.HeaderEvent) // write-side header events
+	// Overwrite builds the tape manager the way `stfs operation initialize` and
+	// `operation archive --overwrite` do: the first writer starts the tape over.
+	Overwrite bool
+	// TapeLikeWriter reports the drive as non-regular to the write path (record-sized
+	// buffered writes, padding to whole records, tape codec parameters) while reads still
+	// treat it as the regular file it is.
+	TapeLikeWriter bool
+	Probe          *Probe
+	OnHeader       func(*config.HeaderEvent) // write-side header events
 }
 
 type World struct {
@@ -117,7 +124,7 @@ func New(cfg Cfg, o Opts) (*World, error) {
 	w := &World{Cfg: cfg, Opts: o, Drive: o.Drive, DB: o.DB, Probe: o.Probe}
 
 	mt := mtio.MagneticTapeIO{}
-	w.TM = tape.NewTapeManager(o.Drive, mt, cfg.RecordSize, false)
+	w.TM = tape.NewTapeManager(o.Drive, mt, cfg.RecordSize, o.Overwrite)
 	w.MP = persisters.NewMetadataPersister(o.DB)
 	if err := w.MP.Open(); err != nil {
 		return nil, fmt.Errorf("persister open: %w", err)
@@ -134,6 +141,9 @@ func New(cfg Cfg, o Opts) (*World, error) {
 				return dw, err
 			}
 			dw.Drive = &probeWriter{w: dw.Drive, p: o.Probe}
+			if o.TapeLikeWriter {
+				dw.DriveIsRegular = false
+			}
 			return dw, nil
 		},
 		CloseWriter: w.TM.Close,
